@@ -112,6 +112,15 @@ CLAIMED = {
         "Trusted: lxml read accessors are pure; Python-level caches are not content; three frozen get-or-create / lazy-load exceptions; "
         "calls on receivers of unknown kind with ambiguous method names are counted as unresolved, not reported.",
         "DESIGN.md §4 C15"),
+    "C16": (
+        "effect analysis of replace() under the constant new=None; slot-discipline and accumulator extraction; registry table comparison for the formatted gate; accessor agreement of the search family; argument-order check at script call sites",
+        "Partial, structural. Decides that counting without a replacement reaches no write and adds len(findall) per descendant text node; that the "
+        "substituted string is written to container.text exactly when the node is its parent's text and to container.tail otherwise, and the count adds "
+        "subn's number; that formatted re-normalisation is gated by exactly the tags of the classes implementing append_plain_text; that the five "
+        "search functions read one accessor; and that the scripts pass their arguments in the method's order. Agreement with `re` at node edges and "
+        "what the positions index are not decided.",
+        "Trusted: re.subn/findall semantics; XPath descendant::text() enumerates each text run once.",
+        "DESIGN.md §4 C16"),
     "C17": (
         "CFG dominance/control-dependence on set_span; set_span/del_span table agreement; guard analysis of the strip loops; table-object-model end state of the bulk edits",
         "Partial, structural. Decides that set_span checks the whole area for an existing span before any write and changes values only under "
